@@ -248,10 +248,12 @@ fn oracle_xls(case: &BinCase) -> Report {
     let mut nt = false;
     for (i, it) in case.items.iter().enumerate() {
         let u = b8::units(&it.text);
-        let rec = match it.form {
+        // LABEL / STRING must fit one record (8224 bytes): longer texts go to the shared-string table
+        let form = if it.form >= 3 && u.len() > 4000 { 2 } else { it.form };
+        let rec = match form {
             0 | 1 | 2 => {
-                let mut s = b8::SstString { units: u.clone(), wide: it.form == 0, ..Default::default() };
-                if it.form == 2 {
+                let mut s = b8::SstString { units: u.clone(), wide: form == 0, ..Default::default() };
+                if form == 2 {
                     s.runs = 1 + it.knob % 3;
                     s.ext = it.knob % 17;
                     s.cut_before = it.knob % 2 == 0;
